@@ -211,6 +211,11 @@ pub fn verify_batch(
         .map(|_| Scalar::from(gen_u128(&mut rng)))
         .collect();
 
+    // Verification seam (off unless built with `--cfg curve25519_dalek_verif`): lets a simulated adaptive
+    // adversary observe the batch coefficients. Nothing in the computation depends on it.
+    #[cfg(curve25519_dalek_verif)]
+    curve25519_dalek::verif_hooks::observe_scalars(b"ed25519-batch-coefficients", &zs);
+
     // Compute the basepoint coefficient, ∑ s[i]z[i] (mod l)
     let B_coefficient: Scalar = signatures
         .iter()
